@@ -2,6 +2,7 @@ package props
 
 import (
 	"fmt"
+	"math/rand"
 	"runtime"
 	"sort"
 	"sync"
@@ -38,7 +39,90 @@ func (c20) MinNontrivial(tier string) int { return tierN(tier, 200, 3000) }
 // ---------------------------------------------------------------------------------------------
 // (a) race workload
 
+type wide struct{ a, b, c int64 }
+
+// utilityRace drives the map utility with multi-word values on the -race build: overwrites of present
+// keys run against loads, load-or-stores and ranges of the same keys. Every value ever read must be one
+// that somebody stored (all three words equal); the race detector watches the utility's own accesses.
+func (p c20) utilityRace(c *core.Ctx) {
+	m := sync2.New[int, wide]()
+	ms := sync2.New[string, any]()
+	nKeys := 1 + c.Rng.Intn(3)
+	for k := 0; k < nKeys; k++ {
+		m.Store(k, wide{int64(k), int64(k), int64(k)})
+		ms.Store(fmt.Sprint(k), fmt.Sprint("v", k))
+	}
+	nG := 3 + c.Rng.Intn(5)
+	nOps := 30 + c.Rng.Intn(40)
+	var wg sync.WaitGroup
+	var torn atomic.Int64
+	var reads atomic.Int64
+	var tornExample atomic.Value
+	start := make(chan struct{})
+	chk := func(w wide) {
+		reads.Add(1)
+		if w.a != w.b || w.b != w.c {
+			torn.Add(1)
+			tornExample.Store(fmt.Sprintf("%+v", w))
+		}
+	}
+	for g := 0; g < nG; g++ {
+		seed := c.Rng.Int63()
+		wg.Add(1)
+		go func(g int, seed int64) {
+			defer wg.Done()
+			rng := rand.New(rand.NewSource(seed))
+			<-start
+			for i := 0; i < nOps; i++ {
+				k := rng.Intn(nKeys)
+				v := int64((g+1)*100000 + i)
+				switch rng.Intn(6) {
+				case 0, 1:
+					m.Store(k, wide{v, v, v})
+					if rng.Intn(2) == 0 {
+						ms.Store(fmt.Sprint(k), v)
+					} else {
+						ms.Store(fmt.Sprint(k), fmt.Sprint("v", v))
+					}
+				case 2:
+					if w, ok := m.Load(k); ok {
+						chk(w)
+					}
+					if x, ok := ms.Load(fmt.Sprint(k)); ok {
+						_ = fmt.Sprint(x)
+					}
+				case 3:
+					w, _ := m.LoadOrStore(k, wide{v, v, v})
+					chk(w)
+				case 4:
+					w, _ := m.LoadOrStoreFn(k, func() wide { return wide{v, v, v} })
+					chk(w)
+				case 5:
+					m.Range(func(_ int, w wide) bool { chk(w); return true })
+					ms.Range(func(_ string, x any) bool { _ = fmt.Sprint(x); return true })
+				}
+				if rng.Intn(4) == 0 {
+					runtime.Gosched()
+				}
+			}
+		}(g, seed)
+	}
+	close(start)
+	wg.Wait()
+	c.Count("utility_race_histories", 1)
+	c.Count("utility_race_reads_checked", int(reads.Load()))
+	if torn.Load() > 0 {
+		c.Fail("", fmt.Sprintf("sync2.Map handed out %d value(s) that nobody ever stored (words of two different stores mixed), e.g. %v", torn.Load(), tornExample.Load()), map[string]any{"goroutines": nG, "ops_each": nOps, "keys": nKeys})
+		return
+	}
+	c.Nontrivial(fmt.Sprintf("utilrace:%d:%d:%d:%d", nG, nOps, nKeys, c.Index))
+}
+
 func (p c20) RunRace(c *core.Ctx) {
+	if c.Index%4 == 3 {
+		p.utilityRace(c)
+		return
+	}
 	sc := RandomGraph(c.Rng, GraphOpts{MinN: 3, MaxN: 12, Types: world.TypesAll, PCycle: 0.5, Chords: 2, ByTypeSlice: 0.2, QualSlice: 0.1, PUnnamed: 0.3})
 	mode := c.Index % 3
 	scanner := &world.FaultScanner{Nm: "verif.racescanner", FailFor: map[string]bool{}}
@@ -58,8 +142,35 @@ func (p c20) RunRace(c *core.Ctx) {
 	arrived := 0
 	all := make(chan struct{})
 	expected := len(scanner.FailFor)
+	// in a third of the failing starts the invocations for the healthy components are slow: they stay
+	// inside the scanner until the failing ones have all arrived and a grace period (in scheduler
+	// yields) has passed - or App.Run has returned, which it must not do while they are in progress
+	slowOthers := nFail > 0 && c.Index%3 == 1
+	released := make(chan struct{})
+	var runDone atomic.Bool
+	if slowOthers {
+		scanner.Touch = true
+		go func() {
+			select {
+			case <-all:
+			case <-time.After(25 * time.Millisecond):
+			}
+			for i := 0; i < 20000 && !runDone.Load(); i++ {
+				if i%64 == 63 {
+					time.Sleep(50 * time.Microsecond)
+				} else {
+					runtime.Gosched()
+				}
+			}
+			close(released)
+		}()
+	}
 	scanner.Gate = func(name string, failing bool) {
 		if !failing {
+			if slowOthers {
+				<-released
+				return
+			}
 			runtime.Gosched()
 			return
 		}
@@ -99,10 +210,19 @@ func (p c20) RunRace(c *core.Ctx) {
 		close(cg.all)
 	}
 	r.Go()
+	inFlight := scanner.InFlight.Load()
+	runDone.Store(true)
 	c.Count("race_starts", 1)
 	if abnormal(r.Outcome()) {
 		c.Fail("", "race workload: "+r.OutcomeDetail(), failDetail(sc, r, nil))
 		return
+	}
+	if inFlight != 0 {
+		c.Fail("", fmt.Sprintf("App.Run returned while %d scanner invocations for other components were still in progress: the parallel scanning phase is not joined, its goroutines go on working on the definitions concurrently with whatever the caller does next", inFlight), failDetail(sc, r, nil))
+		return
+	}
+	if slowOthers {
+		c.Count("starts_with_slow_healthy_scanner_invocations", 1)
 	}
 	if nFail > 0 && r.Outcome() != "error" {
 		c.Fail("", fmt.Sprintf("%d scanner calls failed but App.Run returned nil", nFail), failDetail(sc, r, nil))
